@@ -8,10 +8,10 @@ func init() {
 	register(&propDef{
 		ID:      "C17",
 		Level:   "other",
-		Explain: "Compression decision and typestate rules on the CFG of proxy/gzip. All sites are found by role inside the package (the struct type that declares Write and WriteHeader; the decided writer = the writer-typed interface field - io.Writer, io.WriteCloser, a package-local interface - through which its Write sends the body, in the type itself or in a state struct it keeps; any field holding a *gzip.Writer, also inside a small wrapper type that the decided writer can be; its http.ResponseWriter field; calls of ServeHTTP, sync.Pool.Get/Put, gzip.Writer.Reset/Close, Header.Set/Del; calls through package-local interfaces and through function values kept in fields are resolved to the package's implementations), conditions are branch FACTS that may be spelled inline, as a boolean helper, as a && b or as a guard clause, and order rules are evaluated on the paths of the response writer's methods with same-package helpers inlined. (D1) the compressing response writer is created/served only where, on every path to that verdict, a string cut out of the request's Accept-Encoding is found to name gzip (strings.Contains/Index of the header, or a token ==, EqualFold, a switch case against a constant containing gzip) or to be the wildcard * with a weight parsed from the header found positive - another coding, or a wildcard whose q-value is not examined (*;q=0 refuses), is not acceptance - and the plain serve is not on that edge; a *gzip.Writer becomes the active writer only where the configured expression's MatchString(Content-Type) == true (called directly, through an interface, as a bound method value or a closure over the expression) and Content-Encoding == \"\" are both established; (H1) on every path Del(Content-Length) and Set(Content-Encoding, gzip) precede the wrapped WriteHeader when the gzip writer is installed, the decision is not taken after the headers were sent, Content-Length/Content-Encoding are touched (Set/Add/Del/map) only on the compress edge, the wrapped WriteHeader receives exactly WriteHeader's code parameter and is reached on every path of WriteHeader; (T1) decide-once: the writer field is stored only under writer == nil, only with the gzip writer or the wrapped writer, WriteHeader leaves it decided on every path, and every use of it is after a decision; (T2) pooled gzip.Writer typestate, evaluated from the methods that code outside the package can call and from the handler, whose deferred calls are replayed last-in-first-out (a method that only the package calls is evaluated in the context of its callers): the active gzip writer comes from sync.Pool.Get, is Reset to the wrapped ResponseWriter before it is written to, Close before Put, nothing after Put, Close under gzipWriter != nil, and the handler defers the release between creating the writer and serving; (T3) every Pool.Put is reached through exactly one chain of static call sites with one deferred link, or the release clears the field; (W1) Write hands its parameter unchanged to the decided writer and returns its results, and so does the Write of every package-local wrapper type the decided writer can be; (V1) Vary: Accept-Encoding precedes every serve on every path. Not decided: that compress/gzip round-trips the bytes (library behaviour).",
+		Explain: "Compression decision and typestate rules on the CFG of proxy/gzip. All sites are found by role inside the package (the struct type that declares Write and WriteHeader; the decided writer = the writer-typed interface field - io.Writer, io.WriteCloser, a package-local interface - through which its Write sends the body, in the type itself or in a state struct it keeps; any field holding a *gzip.Writer, also inside a small wrapper type that the decided writer can be; its http.ResponseWriter field; calls of ServeHTTP, sync.Pool.Get/Put, gzip.Writer.Reset/Close, Header.Set/Del; calls through package-local interfaces and through function values kept in fields are resolved to the package's implementations), conditions are branch FACTS that may be spelled inline, as a boolean helper, as a && b or as a guard clause, and order rules are evaluated on the paths of the response writer's methods with same-package helpers inlined. (D1) the compressing response writer is created/served only where, on every path to that verdict, a string cut out of the request's Accept-Encoding is found to name gzip (strings.Contains/Index of the header, or a token ==, EqualFold, a switch case against a constant containing gzip) or to be the wildcard * with a weight parsed from the header found positive - another coding, or a wildcard whose q-value is not examined (*;q=0 refuses), is not acceptance - and the plain serve is not on that edge; a *gzip.Writer becomes the active writer only where the configured expression's MatchString(Content-Type) == true (called directly, through an interface, as a bound method value or a closure over the expression) and Content-Encoding == \"\" are both established; (H1) on every path Del(Content-Length) and Set(Content-Encoding, gzip) precede the wrapped WriteHeader when the gzip writer is installed, the decision is not taken after the headers were sent, Content-Length/Content-Encoding are touched (Set/Add/Del/map) only on the compress edge, the wrapped WriteHeader receives exactly WriteHeader's code parameter and is reached on every path of WriteHeader; (T1) decide-once: the writer field is stored only under writer == nil, only with the gzip writer or the wrapped writer, WriteHeader leaves it decided on every path, and every use of it is after a decision; (T2) pooled gzip.Writer typestate, evaluated from the methods that code outside the package can call and from the handler, whose deferred calls are replayed last-in-first-out (a method that only the package calls is evaluated in the context of its callers): the active gzip writer comes from sync.Pool.Get, is Reset to the wrapped ResponseWriter before it is written to, Close before Put, nothing after Put, Close under gzipWriter != nil, and the handler defers the release between creating the writer and serving; (T3) every Pool.Put is reached through exactly one chain of static call sites with one deferred link, or the release clears the field; (W1) Write hands its parameter unchanged to the decided writer and returns its results, and so does the Write of every package-local wrapper type the decided writer can be; (V1) Vary: Accept-Encoding precedes every serve on every path. Representations: a verdict may be a bool or one of several constants (a negotiated coding, a mode; compared with ==, != or a switch; returned by a helper, handed down as a parameter or kept in a field); undecided / decided may be the nil-ness of the writer field, a boolean or the zero / non-zero value of an enumeration into which only constants are stored; gzipWriter != nil may be spelled with a boolean or an enumeration value that is set exactly where a writer is taken; and the writer field may be absent altogether: then the destination of the body is SELECTED where it is written (the gzip writer only where the field is known to be set, the wrapped writer only where it is known to be nil, and only after the decision). Not decided: that compress/gzip round-trips the bytes (library behaviour).",
 		Run:     runC17,
 		Trusted: []string{"compress/gzip.Writer produces a stream that decompresses to the bytes written", "sync.Pool hands an object to one user at a time"},
-		Mutants: append([]mutant{
+		Mutants: c17filterMutants(append([]mutant{
 			{Name: "drop Del(Content-Length)", File: "proxy/gzip/gzip_handler.go", Old: "\t\t\tgrw.Header().Del(headerContentLength)\n", New: "", Expect: "C17.H1"},
 			{Name: "set headers after WriteHeader", File: "proxy/gzip/gzip_handler.go", Old: "\t\t\tgrw.Header().Set(headerContentEncoding, encodingGzip)\n", New: "\t\t\tdefer grw.Header().Set(headerContentEncoding, encodingGzip)\n", Expect: "C17.H1"},
 			{Name: "status code replaced", File: "proxy/gzip/gzip_handler.go", Old: "\tgrw.ResponseWriter.WriteHeader(code)", New: "\tgrw.ResponseWriter.WriteHeader(http.StatusOK)", Expect: "C17.H1"},
@@ -28,7 +28,7 @@ func init() {
 			{Name: "Write drops the last byte", File: "proxy/gzip/gzip_handler.go", Old: "\treturn grw.writer.Write(b)", New: "\treturn grw.writer.Write(b[:len(b)-1])", Expect: "C17.W1"},
 			{Name: "Vary only when compressing", File: "proxy/gzip/gzip_handler.go", Old: "\t\tw.Header().Add(headerVary, headerAcceptEncoding)\n\n\t\tif acceptsGzip(r) {", New: "\t\tif acceptsGzip(r) {\n\t\t\tw.Header().Add(headerVary, headerAcceptEncoding)", Expect: "C17.V1"},
 			{Name: "benign: explicit else branch order swapped", File: "proxy/gzip/gzip_handler.go", Old: "\t\tif acceptsGzip(r) {\n\t\t\tgzWriter := NewGzipResponseWriter(w, contentTypes)\n\t\t\tdefer gzWriter.Close()\n\t\t\th.ServeHTTP(gzWriter, r)\n\t\t} else {\n\t\t\th.ServeHTTP(w, r)\n\t\t}", New: "\t\tif !acceptsGzip(r) {\n\t\t\th.ServeHTTP(w, r)\n\t\t\treturn\n\t\t}\n\t\tgzWriter := NewGzipResponseWriter(w, contentTypes)\n\t\tdefer gzWriter.Close()\n\t\th.ServeHTTP(gzWriter, r)", Expect: ""},
-		}, append(append(c17moreMutants(), c17round2Mutants()...), c17round4Mutants()...)...),
+		}, append(append(append(c17moreMutants(), c17round2Mutants()...), c17round4Mutants()...), c17round5Mutants()...)...)),
 	})
 }
 
